@@ -351,8 +351,11 @@ class Gen:
         elif kind == "ScheduleNTasksInTimeIntervals":
             n = len(self.spec["tasks"])
             ts = self._tasks(rng.randint(1, min(3, n)))
-            c.update(tasks=ts, nb=rng.randint(0, len(ts)), intervals=self._disjoint_intervals(hz, rng.choice([1, 1, 2])),
-                     mode=rng.choice(["exact", "min", "max"]))
+            mode = rng.choice(["exact", "min", "max"])
+            ivs = self._disjoint_intervals(hz, rng.choice([1, 1, 2, 2, 3]))
+            if mode == "min" and rng.random() < 0.4:
+                ivs = sorted(self._interval(hz, 2) for _ in range(rng.choice([2, 2, 3])))   # may overlap
+            c.update(tasks=ts, nb=rng.randint(0, len(ts)), intervals=ivs, mode=mode)
         elif kind == "OptionalTaskForceSchedule":
             t = self._tasks(1, optional=True)
             if not t:
